@@ -57,6 +57,11 @@ CLAIMED = {
             "block Gaussian q over (y,x), integrate_log_conditional_y as callable and evaluated, for the linear, identity and NN-controlled "
             "kinds, are proved equal to the Wick expectations. RBF / squared-exponential feature models: see evidence (covered when listed).",
             BASE_NOTE + " G1, G2 assumed.", "DESIGN §6-C14"),
+    "C15": ("Literal statement on equal parameters, both sides extracted from the real code: rank-one / linear / constant factors vs "
+            "ConjugateFactor (evaluate, slice, product, multiply and hadamard in both update_full modes incl. Sherman-Morrison vs full "
+            "inversion, expected log-factor), diagonal measure / density / conditional vs the full-matrix classes, identity and "
+            "identity-diagonal conditionals vs ConditionalGaussianPDF with M=I, b=0 for every operation and batch layout, NN-controlled "
+            "conditional with fixed control vs ConditionalGaussianPDF(M(u), b(u)).", BASE_NOTE, "DESIGN §6-C15"),
     "C10": ("For every conditional kind and both batch conventions, the real set_y + evaluate_ln/product are executed on symbolic "
             "arrays with symbolic sizes N, Nx, Dx, Dy and the result is proved equal (normal form) to ln N(y; Mx+b, Sigma); "
             "holds for all sizes and values at once.", BASE_NOTE, "DESIGN §6-C10"),
